@@ -48,6 +48,11 @@ SPEC = dict(
         "inputs containing (B**-n)**e with non-integer e: re-building from a replaced B**n applies pow()'s rewrite "
         "(x**-1)**e -> x**(-e) (known finding C07-invpow-negative-real); excluded from generation",
         "integer exponents beyond +-4 and inputs whose expanded normal form exceeds ~400 monomials (checker cost)",
+        "certificates in which a rational power of a replacement symbol occurs and whose faithfulness check fails are "
+        "answered SKIP:rational-power-of-a-replacement-symbol-merged (x0*x0**(-1/2) -> x0**(1/2) needs the radical "
+        "identity B*B**(-1/2) = B**(1/2)); about 1 case in 2500, judged by the oracle only",
+        "inputs that are not canonical although built through the public API (an Add holding an Add with coefficient 1 "
+        "after coefficients cancelled: C03 matter) are not generated; cse() changes the value of such an input",
         "completeness of the checker (a faithful answer could be rejected) is tested, not proved; soundness is proved",
         "the model of tree_cse / opt_cse itself (certificate mode: the answer of the real code is checked, its algorithm is not mirrored)",
         "freshness only w.r.t. symbols occurring in the expressions: a caller-owned symbol named x0 that does not occur "
@@ -57,7 +62,7 @@ SPEC = dict(
         "harness/sexp.h dumps the stored fields of inputs, replacements and reduced expressions faithfully",
         "function applications are interpreted functionally (value depends on the argument values only); "
         "the interpretation satisfies Lawful: I*I=-1, b**(k+e)=b**k*b**e and (b**e)**k=b**(k*e) for integer k and b != 0, "
-        "oddness / evenness of Sin Tan Cot Csc Sinh Tanh Coth Csch ASinh ATanh Erf / Cos Sec Cosh Sech Abs "
+        "oddness / evenness of Sin Tan Cot Csc Sinh Tanh Coth Csch ASinh ATanh Erf Sign / Cos Sec Cosh Sech Abs "
         "(instantiated over C with Complex.cpow, Complex.sin, Complex.cos: MC_lawful)",
         "a power with a non-literal exponent and base 0 is undefined",
     ],
